@@ -17,6 +17,13 @@
 //     resolve to the type directory / the x509 directory; the model applies the store rule to that
 //     directory: where the rule says "fail" a failure is demanded, where it says "succeed" both
 //     outcomes are accepted (see dotOnlyMustFail).
+//
+// Finding keys: C13:panic, C13:accepted:<first failing clause> (type-invalid, name-nonplain,
+// store-symlink|file|absent, empty-store, entry-subdir|symlink|dangling|empty|garbage|pem-noncert|leaf,
+// tsa-nonroot-inter|cross), C13:accepted:empty-result, C13:partial-result-with-error,
+// C13:rejected-valid-store:type=<t>, C13:result-set:extra|missing|repeated, C13:nil-certificate-in-result,
+// C13:error-type:untyped|store-level|entry-level (the documented meaning of TrustStoreError /
+// CertificateError; an empty store may report either).
 package c13
 
 import (
